@@ -14,7 +14,7 @@ def parse_dec(line):
     t = line.split()
     # x dec ip bytes code mnemonic len next_ip opcount k0 k1 k2 k3 r0 r1 r2 r3 base index scale disp seg ...
     return dict(code=t[4], mnemonic=t[5], opcount=int(t[8], 16), kinds=t[9:13], regs=t[13:17], base=t[17], index=t[18],
-                scale=int(t[19], 16), seg=t[21])
+                scale=int(t[19], 16), seg=t[21], imm8=int(t[22], 16))
 
 
 def wf_mem(d):
@@ -22,33 +22,50 @@ def wf_mem(d):
         (d["base"] not in ("RIP", "EIP") or d["index"] == "None")
 
 
-def operand_ok(spec, kind, reg, d, width_ctx):
-    if spec in ("r64", "r32"):
-        return kind == "Register" and reg in (GPR64 if spec == "r64" else GPR32)
-    if spec in ("rm64", "rm32", "rm8"):
-        cls = {"rm64": GPR64, "rm32": GPR32, "rm8": GPR8}[spec]
+GPR16 = set("AX BX CX DX SI DI SP BP R8W R9W R10W R11W R12W R13W R14W R15W".split())
+
+
+def operand_ok(spec, kind, reg, d, width_ctx, fam):
+    if spec in ("r64", "r32", "r16", "r8"):
+        return kind == "Register" and reg in {"r64": GPR64, "r32": GPR32, "r16": GPR16, "r8": GPR8}[spec]
+    if spec in ("rm64", "rm32", "rm16", "rm8"):
+        cls = {"rm64": GPR64, "rm32": GPR32, "rm16": GPR16, "rm8": GPR8}[spec]
         return (kind == "Register" and reg in cls) or (kind == "Memory" and wf_mem(d))
     if spec == "m":
         return kind == "Memory" and wf_mem(d)
-    if spec in ("RAX", "EAX"):
+    if spec in ("RAX", "EAX", "AX", "AL", "CL"):
         return kind == "Register" and reg == spec
+    if spec == "1":
+        # the one-bit shift encodings: iced delivers the count as an 8-bit immediate with value 1
+        return kind == "Immediate8" and d["imm8"] == 1
+    if fam in ("Shl", "Shr") and spec == "imm8":
+        return kind == "Immediate8"
+    if fam == "Pushq":
+        return kind == {"imm8": "Immediate8to64", "imm32": "Immediate32to64"}.get(spec)
     if spec == "imm8":
-        return kind == {64: "Immediate8to64", 32: "Immediate8to32"}.get(width_ctx)
+        return kind == {64: "Immediate8to64", 32: "Immediate8to32", 16: "Immediate8to16", 8: "Immediate8"}.get(width_ctx)
+    if spec == "imm16":
+        return kind == "Immediate16"
     if spec == "imm32":
         return kind == {64: "Immediate32to64", 32: "Immediate32"}.get(width_ctx)
+    if spec == "imm64":
+        return kind == "Immediate64"
     if spec == "rel32":
         return kind == "NearBranch64"
     return None
 
 
 SPECIAL = {"Call_rel32_64": ["rel32"], "Retnq": [], "Cdqe": [], "Cqo": [], "Cdq": [], "Cld": [], "Nopw": [], "Nopd": [],
-           "Nopq": [], "Endbr64": [], "Push_r64": ["r64"], "Pop_r64": ["r64"], "Lea_r64_m": ["r64", "m"]}
+           "Nopq": [], "Endbr64": [], "Push_r64": ["r64"], "Pop_r64": ["r64"], "Lea_r64_m": ["r64", "m"], "Lea_r32_m": ["r32", "m"]}
+WIDTH = {"r64": 64, "rm64": 64, "RAX": 64, "r32": 32, "rm32": 32, "EAX": 32, "r16": 16, "rm16": 16, "AX": 16, "r8": 8, "rm8": 8, "AL": 8}
 
 
 def shape_of(code):
     if code in SPECIAL:
         return SPECIAL[code]
     parts = code.split("_")[1:]
+    if parts and parts[-1] == "82":
+        parts = parts[:-1]
     return parts
 
 
@@ -58,13 +75,14 @@ def check(code, dec_line):
     if code in ("Nop_rm16", "Nop_rm32", "Nop_rm64"):
         return True, ""
     specs = shape_of(code)
-    if not all(re.fullmatch(r"r64|r32|rm64|rm32|rm8|m|RAX|EAX|imm8|imm32|rel32", p) for p in specs):
+    if not all(re.fullmatch(r"r64|r32|r16|r8|rm64|rm32|rm16|rm8|m|RAX|EAX|AX|AL|CL|imm8|imm16|imm32|imm64|rel32|1", p) for p in specs):
         return None
     if d["opcount"] != len(specs):
         return False, "operand count %d, theorem assumes %d" % (d["opcount"], len(specs))
-    w = 64 if any(p in ("r64", "rm64", "RAX") for p in specs[:1]) else 32
+    w = WIDTH.get(specs[0], 64) if specs else 64
+    fam = code.split("_")[0]
     for k, p in enumerate(specs):
-        ok = operand_ok(p, d["kinds"][k], d["regs"][k], d, w)
+        ok = operand_ok(p, d["kinds"][k], d["regs"][k], d, w, fam)
         if ok is None:
             return None
         if not ok:
